@@ -63,7 +63,7 @@ func main() {
 			fatal(64, "no such harness: %s", pos[0])
 		}
 		kf := drv.LoadKnown()
-		o.Known = kf.OpenIDs(p.Harness[pos[0]].Prop)
+		o.Known = kf.OpenIDs(strings.Split(p.Harness[pos[0]].Prop, ",")[0])
 		hr := drv.RunOne(p, pos[0], o)
 		printRun(hr)
 	case "check":
